@@ -17,6 +17,9 @@ import (
 type buildOp struct {
 	Name string
 	Do   func(m *stun.Message)
+	// Appends: the operation lays out attribute bytes (Add, a typed setter, Encode, Build) and thereby
+	// re-establishes len(Raw) == 20+Length even when the message was decoded from a buffer with trailing bytes.
+	Appends bool
 	// IsEncode marks operations after which Raw must be the canonical reference encoding of the struct.
 	IsEncode bool
 }
@@ -33,7 +36,7 @@ var c03Alphabet = func() []buildOp {
 	var ops []buildOp
 	add := func(t uint16, n int) {
 		v := patBytes(n, int(t))
-		ops = append(ops, buildOp{Name: fmt.Sprintf("Add(%#04x,%dB)", t, n), Do: func(m *stun.Message) { m.Add(stun.AttrType(t), v) }})
+		ops = append(ops, buildOp{Name: fmt.Sprintf("Add(%#04x,%dB)", t, n), Do: func(m *stun.Message) { m.Add(stun.AttrType(t), v) }, Appends: true})
 	}
 	add(0x0001, 0)
 	add(0x8022, 1)
@@ -56,7 +59,7 @@ var c03Alphabet = func() []buildOp {
 		buildOp{Name: "TransactionIDSetter", Do: func(m *stun.Message) { _ = stun.NewTransactionIDSetter(tidA).AddTo(m) }},
 		buildOp{Name: "Message.AddTo(copy id)", Do: func(m *stun.Message) { _ = other.AddTo(m) }},
 		buildOp{Name: "WriteHeader", Do: func(m *stun.Message) { m.WriteHeader() }},
-		buildOp{Name: "Encode", Do: func(m *stun.Message) { m.Encode() }, IsEncode: true},
+		buildOp{Name: "Encode", Do: func(m *stun.Message) { m.Encode() }, IsEncode: true, Appends: true},
 		buildOp{Name: "WriteLength", Do: func(m *stun.Message) { m.WriteLength() }},
 	)
 	for _, n := range []int{0, 1, 3, 4} {
@@ -79,8 +82,19 @@ var c03Alphabet = func() []buildOp {
 			_ = m.Build(stun.BindingSuccess, stun.NewTransactionIDSetter(tidA), stun.NewSoftware("sw/1"), stun.Fingerprint)
 		}, IsEncode: true},
 	)
+	for i := range ops {
+		switch n := ops[i].Name; {
+		case len(n) >= 8 && n[:8] == "Username", n == "XORMappedAddress(v4)", n == "XORMappedAddress(v6)", n == "MappedAddress(v4)", n == "ErrorCode(400)",
+			len(n) >= 17 && n[:17] == "UnknownAttributes", n == "Fingerprint", len(n) >= 5 && n[:5] == "Build":
+			ops[i].Appends = true
+		}
+		// MessageIntegrity appends unless FINGERPRINT is present (then it must change nothing): not counted
+	}
 	return ops
 }()
+
+// c03TrailingFrom is the index of the first start state with trailing bytes.
+var c03TrailingFrom int
 
 // c03Starts are the start states.
 var c03Starts = func() []struct {
@@ -133,13 +147,45 @@ var c03Starts = func() []struct {
 			return m
 		}})
 	}
+	// decoded from a buffer that carries bytes after the declared length (a coalesced stream read): tolerated by
+	// Decode; the first appending operation must cut Raw back to the message
+	for _, tr := range []struct{ i, n int }{{2, 4}, {1, 7}, {6, 132}} {
+		tr := tr
+		raw := ref.Encode(words[tr.i], tid, fam[tr.i])
+		for k := 0; k < tr.n; k++ {
+			raw = append(raw, byte(0xB0+k))
+		}
+		starts = append(starts, st{fmt.Sprintf("Decode(message %d + %d trailing bytes)", tr.i, tr.n), func() *stun.Message {
+			m := &stun.Message{Raw: exactSlice(raw, 0)}
+			if err := m.Decode(); err != nil {
+				panic("c03 start does not decode: " + err.Error())
+			}
+			return m
+		}})
+	}
+	c03TrailingFrom = len(starts) - 3
 	return starts
 }()
 
 // c03Coherent checks the statement on the current state of m.
-func c03Coherent(m *stun.Message) (key, detail string) {
+func c03Coherent(m *stun.Message) (key, detail string) { return c03CoherentT(m, false) }
+
+// c03CoherentT: with tolerateTrailing (a message decoded from a buffer with trailing bytes on which no appending
+// operation ran yet) bytes after the declared length are not a defect.
+func c03CoherentT(m *stun.Message, tolerateTrailing bool) (key, detail string) {
 	raw := m.Raw
-	if why := ref.WellFormedZeroPad(raw); why != "" {
+	why := ref.WellFormedZeroPad(raw)
+	if why == "trailing-bytes" && tolerateTrailing && len(raw) >= 20 {
+		hl := int(raw[2])<<8 | int(raw[3])
+		if 20+hl <= len(raw) {
+			raw = raw[:20+hl]
+			why = ref.WellFormedZeroPad(raw)
+			if why == "nonzero-padding" {
+				why = ""
+			}
+		}
+	}
+	if why != "" {
 		return "malformed/" + why, fmt.Sprintf("Raw is not a well-formed message (%s): %x", why, clip(raw))
 	}
 	hl := int(raw[2])<<8 | int(raw[3])
@@ -193,8 +239,9 @@ func (k c03Case) describe() string {
 func c03Run(k c03Case) (key, detail string) {
 	p := catch(func() {
 		m := c03Starts[k.Start].Make()
+		trailing := k.Start >= c03TrailingFrom
 		if len(k.Ops) == 0 {
-			key, detail = c03Coherent(m)
+			key, detail = c03CoherentT(m, trailing)
 			return
 		}
 		for i, o := range k.Ops {
@@ -209,9 +256,15 @@ func c03Run(k c03Case) (key, detail string) {
 				wantCanon = ref.Encode(ref.TypeWord(uint16(m.Type.Method), uint8(m.Type.Class)), m.TransactionID, attrs)
 			}
 			op.Do(m)
+			if op.Appends {
+				trailing = false
+			}
 			if last {
-				if key, detail = c03Coherent(m); key != "" {
+				if key, detail = c03CoherentT(m, trailing); key != "" {
 					return
+				}
+				if trailing {
+					wantCanon = nil
 				}
 				if wantCanon != nil && !bytes.Equal(m.Raw, wantCanon) {
 					key, detail = "encode-not-canonical", fmt.Sprintf("Encode produced %x, canonical encoding of the struct is %x", clip(m.Raw), clip(wantCanon))
